@@ -430,12 +430,62 @@ def render_txt(blocks, header, footer):
     return io.BytesIO(blk(blocks).encode("utf-8"))
 
 
+def render_mhtml(blocks, header, footer):
+    html = render_html(blocks, header, footer).getvalue().decode("utf-8")
+    b = "----=_NextPart_C02"
+    doc = ("From: <Saved by C02>\r\nSubject: t\r\nMIME-Version: 1.0\r\n"
+           f'Content-Type: multipart/related; type="text/html"; boundary="{b}"\r\n\r\n'
+           f"--{b}\r\nContent-Type: text/html; charset=\"utf-8\"\r\nContent-Transfer-Encoding: 8bit\r\nContent-Location: http://example.org/\r\n\r\n"
+           + html + f"\r\n--{b}--\r\n")
+    return io.BytesIO(doc.encode("utf-8"))
+
+
+EPUB_SKELETON = {
+    "mimetype": "application/epub+zip",
+    "META-INF/container.xml": '<?xml version="1.0"?><container version="1.0" xmlns="urn:oasis:names:tc:opendocument:xmlns:container">'
+                              '<rootfiles><rootfile full-path="OEBPS/content.opf" media-type="application/oebps-package+xml"/></rootfiles></container>',
+    "OEBPS/content.opf": '<?xml version="1.0"?><package xmlns="http://www.idpf.org/2007/opf" version="3.0" unique-identifier="id">'
+                         '<metadata xmlns:dc="http://purl.org/dc/elements/1.1/"><dc:title>T</dc:title><dc:identifier id="id">x</dc:identifier></metadata>'
+                         '<manifest><item id="c1" href="c1.xhtml" media-type="application/xhtml+xml"/></manifest><spine><itemref idref="c1"/></spine></package>',
+}
+
+
+def render_epub(blocks, header, footer):
+    if header or footer:
+        raise Unsupported("header/footer")
+
+    def no_tables(bs):
+        for b in bs:
+            if b[0] == "table":
+                raise Unsupported("epub tables are documented through iterate_tables()")
+            if b[0] in ("list",):
+                for item in b[1]:
+                    no_tables(item)
+            if b[0] in ("section", "sdt"):
+                no_tables(b[1])
+    no_tables(blocks)
+    body = html_blocks(blocks).replace("<br>", "<br/>").replace("&#9;", "\t")
+    files = {
+        "mimetype": "application/epub+zip",
+        "META-INF/container.xml": '<?xml version="1.0"?><container version="1.0" xmlns="urn:oasis:names:tc:opendocument:xmlns:container">'
+                                  '<rootfiles><rootfile full-path="OEBPS/content.opf" media-type="application/oebps-package+xml"/></rootfiles></container>',
+        "OEBPS/content.opf": '<?xml version="1.0"?><package xmlns="http://www.idpf.org/2007/opf" version="3.0" unique-identifier="id">'
+                             '<metadata xmlns:dc="http://purl.org/dc/elements/1.1/"><dc:title>T</dc:title><dc:identifier id="id">x</dc:identifier></metadata>'
+                             '<manifest><item id="c1" href="c1.xhtml" media-type="application/xhtml+xml"/></manifest><spine><itemref idref="c1"/></spine></package>',
+        "OEBPS/c1.xhtml": '<?xml version="1.0"?><html xmlns="http://www.w3.org/1999/xhtml"><head><title>c1</title><style>p{}</style></head><body>'
+                          + body + "<script>var XRM998x = 1;</script></body></html>",
+    }
+    return _zip(files)
+
+
 FLOW = {
     "docx": ("ms_modern.docx_extractor", "read_docx", render_docx),
     "odt": ("open_office.odt_extractor", "read_odt", render_odt),
     "html": ("html_extractor", "read_html", render_html),
     "rtf": ("ms_legacy.rtf_extractor", "read_rtf", render_rtf),
     "txt": ("plain_extractor", "read_plain_text", render_txt),
+    "mhtml": ("mhtml_extractor", "read_mhtml", render_mhtml),
+    "epub": ("epub_extractor", "read_epub", render_epub),
 }
 
 
